@@ -11,6 +11,7 @@ package main
 
 import (
 	"bytes"
+	"math"
 	"encoding/hex"
 	"encoding/json"
 	"flag"
@@ -592,7 +593,7 @@ func (r *recorder) OnInt64(v int64, n json.Number) error {
 }
 func (r *recorder) OnFloat64(v float64, n json.Number) error {
 	r.evs = append(r.evs, "N"+hex.EncodeToString([]byte(string(n))))
-	if w, err := strconv.ParseFloat(string(n), 64); err != nil || w != v {
+	if w, err := strconv.ParseFloat(string(n), 64); err != nil || math.Float64bits(w) != math.Float64bits(v) {
 		*r.problems = append(*r.problems, fmt.Sprintf("OnFloat64(%v,%q) but ParseFloat gives %v,%v", v, n, w, err))
 	}
 	return nil
@@ -705,6 +706,40 @@ func lookNode(root *ast.Node, path []Sel, byPath bool) (res string) {
 	return "K:" + b2s(p.Exists()) + b2s(p.Valid()) + ":" + errClassNode(p.Check()) + ":" + strconv.Itoa(p.TypeSafe()) + ":" + tr(ast.VerifAbs(p))
 }
 
+// bit-exact comparison of generic values: float64 by bit pattern (-0 and +0 differ, NaN equals itself)
+func sameIface(a, b interface{}) bool {
+	switch x := a.(type) {
+	case float64:
+		y, ok := b.(float64)
+		return ok && math.Float64bits(x) == math.Float64bits(y)
+	case []interface{}:
+		y, ok := b.([]interface{})
+		if !ok || len(x) != len(y) || (x == nil) != (y == nil) {
+			return false
+		}
+		for i := range x {
+			if !sameIface(x[i], y[i]) {
+				return false
+			}
+		}
+		return true
+	case map[string]interface{}:
+		y, ok := b.(map[string]interface{})
+		if !ok || len(x) != len(y) || (x == nil) != (y == nil) {
+			return false
+		}
+		for k, v := range x {
+			w, ok := y[k]
+			if !ok || !sameIface(v, w) {
+				return false
+			}
+		}
+		return true
+	default:
+		return reflect.DeepEqual(a, b)
+	}
+}
+
 // observables of a located node against the raw text the oracle located
 func checkViews(n *ast.Node, want string, problems *[]string) {
 	add := func(f string, a ...interface{}) { *problems = append(*problems, fmt.Sprintf(f, a...)) }
@@ -712,14 +747,14 @@ func checkViews(n *ast.Node, want string, problems *[]string) {
 	// Interface vs encoding/json
 	var std interface{}
 	json.Unmarshal([]byte(want), &std)
-	if got, err := n.Interface(); err != nil || !reflect.DeepEqual(got, std) {
+	if got, err := n.Interface(); err != nil || !sameIface(got, std) {
 		add("Interface() = %#v, %v ; encoding/json gives %#v", got, err, std)
 	}
 	var stdN interface{}
 	d := json.NewDecoder(strings.NewReader(want))
 	d.UseNumber()
 	d.Decode(&stdN)
-	if got, err := n.InterfaceUseNumber(); err != nil || !reflect.DeepEqual(got, stdN) {
+	if got, err := n.InterfaceUseNumber(); err != nil || !sameIface(got, stdN) {
 		add("InterfaceUseNumber() = %#v, %v ; encoding/json gives %#v", got, err, stdN)
 	}
 	if got := canonRaw(n); got != wantCanon {
@@ -760,8 +795,11 @@ func checkViews(n *ast.Node, want string, problems *[]string) {
 			add("StrictNumber() = %q,%v want %q", got, err, v)
 		}
 		if w, err := strconv.ParseFloat(string(v), 64); err == nil {
-			if got, gerr := n.Float64(); gerr != nil || got != w {
-				add("Float64() = %v,%v want %v", got, gerr, w)
+			if got, gerr := n.Float64(); gerr != nil || math.Float64bits(got) != math.Float64bits(w) {
+				add("Float64() = %v (bits %x),%v want %v (bits %x)", got, math.Float64bits(got), gerr, w, math.Float64bits(w))
+			}
+			if got, gerr := n.StrictFloat64(); gerr != nil || math.Float64bits(got) != math.Float64bits(w) {
+				add("StrictFloat64() = %v (bits %x),%v want %v (bits %x)", got, math.Float64bits(got), gerr, w, math.Float64bits(w))
 			}
 		}
 		if w, err := strconv.ParseInt(string(v), 10, 64); err == nil {
@@ -795,7 +833,7 @@ func checkViews(n *ast.Node, want string, problems *[]string) {
 		if l, err := n.Len(); err != nil || l != len(elems) {
 			add("Len() after ForEach = %d,%v want %d", l, err, len(elems))
 		}
-		if vs, err := n.Array(); err != nil || !reflect.DeepEqual(vs, std) {
+		if vs, err := n.Array(); err != nil || !sameIface(vs, std) {
 			add("Array() differs from encoding/json: %v", err)
 		}
 	case map[string]interface{}:
@@ -829,7 +867,7 @@ func checkViews(n *ast.Node, want string, problems *[]string) {
 		if err != nil || i != len(keys) {
 			add("ForEach visited %d of %d members, err %v", i, len(keys), err)
 		}
-		if m, err := n.Map(); err != nil || !reflect.DeepEqual(m, std) {
+		if m, err := n.Map(); err != nil || !sameIface(m, std) {
 			add("Map() differs from encoding/json: %v", err)
 		}
 	}
@@ -951,7 +989,7 @@ func runCase(c *Case) string {
 		for i := range problems {
 			problems[i] = strings.NewReplacer("\t", " ", "\n", " ").Replace(problems[i])
 			if len(problems[i]) > 600 {
-				problems[i] = problems[i][:600]
+				problems[i] = strings.ToValidUTF8(problems[i][:600], "?")
 			}
 		}
 		prob = strings.Join(problems, " ;; ")
